@@ -20,7 +20,9 @@ func c07DataFrame() []byte {
 // function, system bytes; body 0..2 bytes) received while NotSelected.
 func VerifC07_InboundNotSelected() {
 	vsymExpect("rejected")
-	rt := &vrt{state: hsms.NotSelectedState}
+	// NotSelected, or NotConnected with the receive loop still reading (Close / a drop in progress)
+	before := []hsms.ConnState{hsms.NotSelectedState, hsms.NotConnectedState}[vsymChoose(2)]
+	rt := &vrt{state: before}
 	tr := newVT(rt, vsymBool())
 	f := c07DataFrame()
 	keep := tr.dispatchFrame(tr.wg, f)
@@ -34,7 +36,7 @@ func VerifC07_InboundNotSelected() {
 		want := [10]byte{f[0], f[1], 0, 4, 0, 7, f[6], f[7], f[8], f[9]}
 		vsymAssert(h == want, "reject-reason-4-echoes-session-and-system-bytes")
 	}
-	vsymAssert(rt.state == hsms.NotSelectedState, "state-unchanged")
+	vsymAssert(rt.state == before, "state-unchanged")
 }
 
 // VerifC07_PipelinedAfterSelect: passive role: [Select.req, data...]; active role:
